@@ -19,7 +19,7 @@ from sim.world import Run
 
 ID = "C41"
 LEVEL = "exploration"
-RUNS = {"quick": 40000, "thorough": 500000}
+RUNS = {"quick": 40000, "thorough": 3000000}
 BUDGET = {"quick": 100.0, "thorough": 3300.0}
 RULE = ("one run = one ExposeSensor with seeded cooldown / periodic_send / respond_to_read and a seeded history of set / "
         "skip_unchanged set / initialize_value / read / external write with gaps relative to the cooldown; non-trivial = "
